@@ -24,14 +24,27 @@ enum {
     K_YSUB,		/* YAML: value (with nested block) -> each ysub[] */
     K_REDECL,		/* re-declare a numeric header line later on */
     K_HDRMOVE,		/* move header line i to before header line j */
+    K_LINEINS,		/* calibration file: insert a "key: value" line that
+			   belongs to another layout or another place */
     NKINDS
 };
 static const char *const kind_names[NKINDS] = {
     "truncate", "token-delete", "token-duplicate", "token-swap-next",
     "number-replace", "keyword-replace", "line-delete", "line-duplicate",
     "line-swap-next", "header-line-swap", "yaml-node-substitute",
-    "header-redeclare", "header-line-move"
+    "header-redeclare", "header-line-move", "foreign-line-insert"
 };
+
+/* lines of the calibration-file vocabulary (all layouts, all versions) */
+static const char *const foreign_line[] = {
+    "type: T8", "type: U8", "type: TE10", "type: UE10", "type: T16",
+    "type: U16", "type: UE14", "type: E12", "type: X9", "rows: 1", "rows: 2",
+    "columns: 1", "columns: 2", "frequencies: 3", "z0: 75", "name: other",
+    "data: []", "properties: {a: b}", "e: [[1]]", "um: [1]", "el: [[1]]",
+    "tm: [[1, 2], [3, 4]]", "sets: []", "calibrations: []", "version: 9",
+    "f: 3e9", "- f: 3e9", "- name: extra",
+};
+#define NFOREIGN ((int)(sizeof(foreign_line) / sizeof(foreign_line[0])))
 
 #define MAXTOK	1600
 #define MAXLINE	400
@@ -307,6 +320,7 @@ static long dev_count(const doc_t *d, int kind)
     case K_YSUB:	return d->nyl;
     case K_REDECL:	return d->nrd;
     case K_HDRMOVE:	return (long)d->nhdrf * (d->nhdrf + 1);
+    case K_LINEINS:	return d->format == F_VNACAL ? d->nline : 0;
     default:		return 0;
     }
 }
@@ -404,6 +418,25 @@ static void dev_apply(const doc_t *d, int kind, long pos, emit_fn emit,
 	ob_put(o, s, d->ls[pos], d->le[pos]);
 	ob_put(o, s, d->le[pos], len);
 	emit(ctx, o->b, o->n, 0);
+	break;
+
+    case K_LINEINS:
+	{
+	    /* before line pos, at that line's indentation */
+	    int ind = 0;
+	    while (d->ls[pos] + ind < d->le[pos] && s[d->ls[pos] + ind] == ' ')
+		++ind;
+	    for (int v = 0; v < NFOREIGN; ++v) {
+		o->n = 0;
+		ob_put(o, s, 0, d->ls[pos]);
+		for (int k = 0; k < ind; ++k)
+		    ob_str(o, " ");
+		ob_str(o, foreign_line[v]);
+		ob_str(o, "\n");
+		ob_put(o, s, d->ls[pos], len);
+		emit(ctx, o->b, o->n, v);
+	    }
+	}
 	break;
 
     case K_LINESWAP:
